@@ -29,7 +29,7 @@ import (
 
 // c14Alphabet: ASCII, 2-, 3- (narrow and wide) and 4-byte characters, a
 // combining mark and a newline.
-var c14Alphabet = []string{"a", "b", "é", "–", "日", "😀", "\u0301", "\n"}
+var c14Alphabet = []string{"a", "b", "é", "–", "日", "😀", "\u0301", "\n", "\ufffd"}
 
 // c14LongAlphabet extends it for the random longer subjects: upper-case
 // partners (flag i), a word separator (\b) and two characters whose simple
